@@ -13,6 +13,7 @@ import (
 	"flag"
 	"fmt"
 	"os"
+	"runtime"
 	"time"
 
 	"gitlab.com/yawning/secp256k1-voi/verifsim"
@@ -66,6 +67,17 @@ func main() {
 		return
 	}
 	if *canary == "stale" {
+		// The detector recycles the globally oldest trace part whenever ANY
+		// goroutine of the process fills its own quota, so a goroutine the
+		// library starts by itself (an init() that unpacks tables in the
+		// background) can evict the canary's history.  Give such goroutines
+		// up to three seconds to finish, and say whether any was still there:
+		// the driver treats a failure with company as a stated limit of the
+		// oracle, a failure without as a broken set-up.
+		for i := 0; i < 300 && runtime.NumGoroutine() > 1; i++ {
+			time.Sleep(10 * time.Millisecond)
+		}
+		fmt.Printf("canary: %d goroutines besides the canary's own at its start\n", runtime.NumGoroutine()-1)
 		runCanaryStale()
 		fmt.Println("canary finished without a race report")
 		return
